@@ -44,14 +44,13 @@ Definition chk (prop fam : bytes) (c o : value) : bool :=
   else if beq prop (B "C07") then (if beq fam (B "fs") then chk_C07 c o else if beq fam (B "fsm") then chk_C07m c o else true)
   else if beq prop (B "C08") then (if beq fam (B "fs") || beq fam (B "fsl") then chk_C08 c o else if beq fam (B "life") then chk_C15_life c o else if beq fam (B "fsm") then chk_C08m c o else true)
   else if beq prop (B "C12") then (if beq fam (B "proxy") then chk_C12 c o else true)
-  else if beq prop (B "C13") then (if beq fam (B "proxy") then chk_C13 c o else true)
+  else if beq prop (B "C13") then (if beq fam (B "proxy") then chk_C13 c o else if beq fam (B "tlsraw") then chk_tlsraw c o else true)
   else if beq prop (B "C10") then (if beq fam (B "lifed") then chk_C10_lifed c o else if beq fam (B "life") then chk_C10_life c o
                                         else if beq fam (B "proxy") then chk_C11 c o else if beq fam (B "tls") then chk_C20 c o else true)
   else if beq prop (B "C11") then (if beq fam (B "fs") then chk_C11_fs c o else if beq fam (B "sockcopy") then chk_C11_sockcopy c o else if beq fam (B "tlsraw") then chk_C11 c o && chk_tlsraw c o else chk_C11 c o)
   else if beq prop (B "C20") then (if beq fam (B "tls") then chk_C20 c o else if beq fam (B "tlsraw") then chk_tlsraw c o else true)
   else if beq prop (B "C15") then (if beq fam (B "slot") then chk_C15 c o else if beq fam (B "slotm") then chk_C15m c o else if beq fam (B "sloti") then (match c with VL [_; inner] => chk_C15m inner o | _ => true end) else if beq fam (B "life") then chk_C15_life c o else true)
   else if beq prop (B "C17") then chk_C17 fam c o
-  else if beq prop (B "C13") && beq fam (B "tlsraw") then chk_tlsraw c o
   else if beq prop (B "C14") then (if beq fam (B "copier") then chk_C14 c o else if beq fam (B "copierbig") then chk_copierbig c o else true)
   else if beq prop (B "C18") then (if beq fam (B "sock") then chk_C18 c o else if beq fam (B "socklate") then chk_C18_late c o else if beq fam (B "stream") then chk_stream c o else if beq fam (B "tlsraw") then chk_tlsraw c o else true)
   else if beq prop (B "C19") then (if beq fam (B "sock") || beq fam (B "sockl") then chk_C19_sock c o else if beq fam (B "srv") then chk_C19_srv c o else if beq fam (B "socknet") then chk_C19_net c o else if beq fam (B "tls") then chk_C20 c o else if beq fam (B "tlsraw") then chk_tlsraw c o else true)
